@@ -77,13 +77,20 @@ package jsonrpc2
 //@   ensures @refused-call-is-still-open err != nil ==> !closed(ac.ready) && ac.ready != nil
 
 // The reader's exit action records the (non-nil) read error.
-//@ func (*Connection).readIncoming$2 [C01]
+//@ func (*Connection).readIncoming$2 [C01, C05]
 //@   requires err != nil
 //@   loop 1: invariant @map-untouched s.outgoingCalls == old(s.outgoingCalls) && closed(c.done) == old(closed(c.done))
 //@   loop 1: invariant @visited-are-completed forall id ID :: {inDom(s.outgoingCalls, id)} id in s.outgoingCalls && id in $visited ==> closed(rawGet(s.outgoingCalls, id).ready)
 //@        && rawGet(s.outgoingCalls, id).response != nil && rawGet(s.outgoingCalls, id).response.ID == id
 //@   loop 1: invariant @unvisited-are-open forall id ID :: {inDom(s.outgoingCalls, id)} id in s.outgoingCalls && !(id in $visited) ==> !closed(rawGet(s.outgoingCalls, id).ready)
 //@   loop 1: invariant @completion-is-final forall ac *AsyncCall :: {closed(ac.ready)} old(closed(ac.ready)) ==> closed(ac.ready) && ac.response == old(ac.response)
+// (C05) When the reader is gone the in-flight incoming requests - the indexed ones: dispatched handlers as well as queued
+// requests - are cancelled, each with the read error: a handler parked on its context (subscriptions/listen) would
+// otherwise keep the connection from ever becoming idle, and Wait/Close would never return after the peer vanished.
+//@   track r.cancel as cancelRequest
+//@   assert at call r.cancel: @the-read-error-is-the-cause $0 == err
+//@   ensures @in-flight-requests-are-cancelled-when-the-reader-exits forall id ID :: {inDom(s.incomingByID, id)} id in s.incomingByID ==> calls(cancelRequest) >= 1
+//@   loop 2: invariant @every-visited-request-was-cancelled s.incomingByID == old(s.incomingByID) && (forall id ID :: {inDom(s.incomingByID, id)} (id in $visited) ==> calls(cancelRequest) >= 1)
 
 // A failed write records the (non-nil) write error.
 //@ func (*Connection).write$2 [C05]
@@ -159,7 +166,7 @@ package jsonrpc2
 
 // write: a failed write marks the connection broken (write$2) only if the failure can be blamed neither on the
 // caller's context nor on a transport-level rejection; cancelled or rejected writes leave the session usable.
-//@ func (*Connection).write [C04, C13]
+//@ func (*Connection).write [C04, C13, C01]
 //@   track ctx.Err as ctxErr
 //@   track write$2 as breakConnection
 //@   track c.writer.Write as transportWrite
